@@ -21,7 +21,7 @@ SAFE_METHODS = {
     list: {"append", "extend", "copy", "index", "count", "pop", "remove", "insert", "clear", "reverse", "sort"},
     str: {"format", "title", "startswith", "endswith", "lower", "upper", "join", "replace", "split", "strip", "lstrip", "rstrip", "find", "isdigit", "removeprefix", "removesuffix", "zfill", "isalpha", "isalnum", "partition", "rpartition", "rfind", "index", "count", "isidentifier"},
     tuple: {"index", "count"},
-    set: {"add", "union", "copy", "difference", "intersection", "issubset", "issuperset", "isdisjoint", "symmetric_difference", "update", "discard", "remove", "pop"},
+    set: {"add", "union", "copy", "difference", "intersection", "issubset", "issuperset", "isdisjoint", "symmetric_difference", "update", "discard", "remove", "pop", "difference_update", "intersection_update", "symmetric_difference_update", "clear"},
     frozenset: {"union", "copy", "difference", "intersection", "issubset", "issuperset", "isdisjoint", "symmetric_difference"},
     type(__import__("re").compile("")): {"sub", "subn", "findall", "match", "search", "fullmatch", "split"},
     type(__import__("re").match("", "")): {"group", "groups", "start", "end", "span", "groupdict"},
